@@ -647,12 +647,60 @@ fn c10_build(kind: &str) -> Option<Scn> {
     }
 }
 
+/// A worker that owns one vector: pushes, writes, truncations, flushes; after every step the
+/// vector (and, after a write, its read-only clone) must hold exactly what this thread put there.
+fn vec_script<V: V9>(db: &Database, name: &str, script: &[(usize, usize)], seed: u64)
+where
+    V::ReadOnly: Send,
+{
+    let mut v: V = V::forced_import(db, name, Version::new(1)).unwrap();
+    let mut model: Vec<u64> = vec![];
+    let mut next = crate::common::mix64(seed, 1) >> 8;
+    for &(op, a) in script {
+        let when = match op {
+            0..=4 => {
+                for _ in 0..[1usize, 30, 500, 2048, 3000][a % 5] {
+                    v.push(next);
+                    model.push(next);
+                    next = next.wrapping_mul(6364136223846793005).wrapping_add(1442695040888963407) >> 1;
+                }
+                "push"
+            }
+            5..=7 => {
+                v.write().unwrap();
+                let ro = v.read_only_clone();
+                let got: Vec<u64> = ro.collect_range_at(0, usize::MAX);
+                assert!(got == model, "isolation: the read-only clone of vector {name} differs from its own thread's model after write (len {} vs {})", got.len(), model.len());
+                "write"
+            }
+            8 | 9 => {
+                let t = a % (model.len() + 1);
+                v.truncate_if_needed_at(t).unwrap();
+                model.truncate(t);
+                "truncate"
+            }
+            _ => {
+                AnyStoredVec::flush(&mut v).unwrap();
+                "flush"
+            }
+        };
+        let got: Vec<u64> = v.collect_range_at(0, usize::MAX);
+        if got != model {
+            let at = got.iter().zip(&model).position(|(x, y)| x != y).unwrap_or(got.len().min(model.len()));
+            panic!("isolation: vector {name} differs from its own thread's model after {when} (len {} vs {}, first difference at {at})", got.len(), model.len());
+        }
+    }
+    AnyStoredVec::flush(&mut v).unwrap();
+}
+
 /// Randomised isolation scripts: `n` selects (through the PRNG) the pre-state, the number of
 /// workers and every worker's own sequence of operations on its own regions (appends through
 /// every placement path, write_at, truncate, truncate_write, rename, remove + re-create, a second
 /// and third region, region flush, database flush). Every worker compares all of its regions with
 /// its own byte model after every operation; at quiescence the extent invariants, every worker's
 /// final contents, the regions nobody touched and the absence of stray regions are checked.
+/// Up to two more workers own a vector each (raw or compressed) and push / write / truncate /
+/// flush it, comparing it and its read-only clone with their own model.
 /// compact() is not part of the scripts: writer-vs-compact is C12's scenario (and its known finding).
 fn c10_isorand(n: u64) -> Option<Scn> {
     let tmp = TempDir::new("c10r");
@@ -804,6 +852,26 @@ fn c10_isorand(n: u64) -> Option<Scn> {
             }),
         ));
     }
+    // "(or distinct vectors)": up to two workers that own a vector each (raw / compressed)
+    let nvec = rng.below(3);
+    for j in 0..nvec {
+        let steps = rng.range(4, 9);
+        let script: Vec<(usize, usize)> = (0..steps).map(|_| (rng.below(12), rng.next_u64() as usize >> 8)).collect();
+        let db = db.clone();
+        let compressed = (n as usize + j) % 2 == 1;
+        let seed = n.wrapping_mul(17) + j as u64;
+        jobs.push((
+            format!("vecworker{j}"),
+            Box::new(move || {
+                let name = format!("wv{j}");
+                if compressed {
+                    vec_script::<PcoVec<usize, u64>>(&db, &name, &script, seed);
+                } else {
+                    vec_script::<BytesVec<usize, u64>>(&db, &name, &script, seed);
+                }
+            }),
+        ));
+    }
     let check = Box::new(move |_punches: &[sched::PunchRec]| {
         check_layout(&db).map_err(|e| format!("extent invariant broken at quiescence: {e}"))?;
         let exp = expected.lock().unwrap();
@@ -821,7 +889,7 @@ fn c10_isorand(n: u64) -> Option<Scn> {
         }
         let names: Vec<String> = db.regions().id_to_index().keys().map(|k| k.to_string()).collect();
         for k in names {
-            if !exp.contains_key(&k) && !untouched.iter().any(|(n, _)| *n == k) {
+            if !exp.contains_key(&k) && !untouched.iter().any(|(n, _)| *n == k) && !k.starts_with("wv") {
                 return Err(format!("stray region {k} exists at quiescence (renamed away or removed by its owner)"));
             }
         }
